@@ -149,9 +149,6 @@ pub fn modifiers() -> Vec<Modifier> {
 
 pub const OPERATORS: [RuleOperator; 3] = [RuleOperator::Normal, RuleOperator::Additional, RuleOperator::Fallback];
 
-fn plain_single_year(y: &[YearRange]) -> bool {
-    y.len() == 1 && y[0].step == 1 && y[0].range.start() == y[0].range.end()
-}
 
 /// Day selectors with at most `max_kinds` non-empty kinds (simplest first).
 pub fn day_selectors(max_kinds: usize) -> Vec<DaySelector> {
@@ -176,9 +173,6 @@ pub fn day_selectors(max_kinds: usize) -> Vec<DaySelector> {
     if max_kinds >= 2 {
         for y in ys.iter().skip(1) {
             for m in ms.iter().skip(1) {
-                if plain_single_year(y) {
-                    continue; // `2020Apr` denotes a month range *of* 2020 (alphabet value on its own)
-                }
                 out.push(DaySelector { year: y.clone(), monthday: m.clone(), ..Default::default() });
             }
         }
@@ -212,9 +206,6 @@ pub fn day_selectors(max_kinds: usize) -> Vec<DaySelector> {
         // every combination of 3 and 4 kinds (index 0 of a dimension = selector absent)
         for y in ys.iter() {
             for m in ms.iter() {
-                if !y.is_empty() && !m.is_empty() && plain_single_year(y) {
-                    continue;
-                }
                 for w in ws.iter() {
                     for d in ds.iter() {
                         let kinds = [!y.is_empty(), !m.is_empty(), !w.is_empty(), !d.is_empty()].iter().filter(|x| **x).count();
